@@ -28,6 +28,12 @@ func main() {
 			skipNil = true
 		}
 	}
+	lenform := false
+	for _, a := range os.Args[2:] {
+		if a == "lenform" {
+			lenform = true
+		}
+	}
 	mirror := map[token.Token]token.Token{token.LSS: token.GTR, token.GTR: token.LSS, token.LEQ: token.GEQ, token.GEQ: token.LEQ, token.EQL: token.EQL, token.NEQ: token.NEQ}
 	n := 0
 	filepath.Walk(root, func(p string, fi os.FileInfo, err error) error {
@@ -50,6 +56,24 @@ func main() {
 			}
 			m, isCmp := mirror[b.Op]
 			if !isCmp {
+				return true
+			}
+			if lenform {
+				// len(e) == 0 -> len(e) < 1 ; len(e) != 0 / > 0 -> len(e) >= 1 ; len(e) < N -> len(e) <= N-1 is left alone
+				call, isCall := b.X.(*ast.CallExpr)
+				lit, isLit := b.Y.(*ast.BasicLit)
+				if isCall && isLit && lit.Kind == token.INT {
+					if id, isId := call.Fun.(*ast.Ident); isId && id.Name == "len" {
+						switch {
+						case b.Op == token.EQL && lit.Value == "0":
+							b.Op, lit.Value = token.LSS, "1"
+							changed, n = true, n+1
+						case (b.Op == token.NEQ || b.Op == token.GTR) && lit.Value == "0":
+							b.Op, lit.Value = token.GEQ, "1"
+							changed, n = true, n+1
+						}
+					}
+				}
 				return true
 			}
 			isNil := func(e ast.Expr) bool { id, ok := e.(*ast.Ident); return ok && id.Name == "nil" }
